@@ -966,3 +966,49 @@ def build(chk: Check) -> None:
     group_C(chk, results)
     group_D(chk, results)
     group_E(chk, results)
+    group_N(chk)
+
+
+def group_N(chk: Check) -> None:
+    """Numbers first (bounded, real functions): a massless particle given as the exact number 0 BEFORE the expression is unfolded --
+    `expr.xreplace({m_k: 0}).doit()` -- equals the unfolded expression evaluated with m_k = 0 afterwards, at physical events with that
+    particle massless. (evaluate() of the nodes involved may look at is_zero / is_number of its arguments; symbols-first obligations
+    cannot see such a branch.)"""
+    evs = {k: [] for k in (1, 2, 3)}
+    rng = np.random.default_rng(1919)
+    for k in (1, 2, 3):
+        for _ in range(4):
+            ms = list(rng.uniform(0.15, 1.0, size=3))
+            ms[k - 1] = 0.0
+            evs[k].append(make_event(ms, rng.normal(size=3), rng.normal(size=3)))
+    for kind, (f, arity, fname) in FUNCS.items():
+        idxs = [i for i in itertools.product((0, 1, 2, 3) if kind == "zeta" else (1, 2, 3), repeat=arity)]
+        def rep(_m=None, kind=kind, idxs=idxs):
+            n = 0
+            for idx in idxs:
+                out = call(kind, idx)
+                if out[0] != "ok" or out[2] == 0:
+                    continue
+                for k in (1, 2, 3):
+                    try:
+                        first = out[2].xreplace({MS[k]: sp.Integer(0)}).doit()
+                    except Exception as e:  # noqa: BLE001
+                        return {"reproduced": True, "input": f"{kind}{tuple(idx)} with m_{k} = 0 substituted before doit()", "observed": f"{type(e).__name__}: {e}"[:200]}
+                    fn = sp.lambdify([sp.Symbol(nm, nonnegative=True) for nm in NAMES], first, "numpy")
+                    for ev in evs[k]:
+                        with np.errstate(all="ignore"):
+                            try:
+                                a = complex(fn(*[np.float64(ev["pt"][nm]) for nm in NAMES]))
+                            except ZeroDivisionError:
+                                continue
+                        b = real_value(kind, idx, ev["pt"])
+                        if not (np.isfinite(a.real) and np.isfinite(b)):
+                            continue
+                        n += 1
+                        if abs(a.real - b) > 1e-6 or abs(a.imag) > 1e-9:
+                            return {"reproduced": True, "input": {"function": kind, "indices": list(idx), "massless": f"m_{k} = 0 (exact, before doit)", "point": ev["pt"]},
+                                    "observed": a.real, "expected": b, "what": "numbers first == symbols first"}
+            return {"reproduced": n == 0, "note": f"{n} comparisons"}
+
+        r = rep()
+        chk.struct(f"N.numbers_first==symbols_first[{kind}]", not r["reproduced"], fname, witness=r, replay=rep, bounded=True)
